@@ -74,7 +74,7 @@ def r1_filter_polarity(ctx):
     for c in apps:
         lits = literals(N.conj(astx.path_condition(f.node, c, pm)))
         inner = astx.u(c.args[0].args[0])
-        good = f"ge(len({inner}), 1)" in lits
+        good = f"truthy({inner})" in lits
     ctx.check(good, f, apps[0] if apps else f.node, "a position is kept iff it still has members", "", "emptied positions are not dropped (or non-empty ones are)")
     # cleaning helpers
     h = prog.nested_func(prog.find_func("remove_noncands"), "remove_from_ballots")
@@ -209,8 +209,8 @@ def r2_order(ctx):
         parts = OrderPipe(f.node)._flatten_add(nr.body)
         tail = parts[-1]
         k = bool_key(Normalizer(f.node, inline=False).guard(nr.test))
-        good = len(parts) == 2 and isinstance(tail, ast.List) and len(tail.elts) == 1 and re.fullmatch(r"ge\(len\((\w+)\), 1\)", k) is not None \
-            and astx.u(tail.elts[0]) == re.fullmatch(r"ge\(len\((\w+)\), 1\)", k).group(1) and astx.u(nr.orelse).endswith(".ranking")
+        good = len(parts) == 2 and isinstance(tail, ast.List) and len(tail.elts) == 1 and re.fullmatch(r"truthy\((\w+)\)", k) is not None \
+            and astx.u(tail.elts[0]) == re.fullmatch(r"truthy\((\w+)\)", k).group(1) and astx.u(nr.orelse).endswith(".ranking")
         if good:
             md = astx.unique_def(f.node, astx.u(tail.elts[0]))
             good = md is not None and re.fullmatch(r"\w+\.difference\(\w+\)", astx.u(md)) is not None
@@ -278,7 +278,7 @@ def r3_weight_provenance(ctx):
         cls, k = weight_class(prog, f, c)
         if cls == "ZERO":
             lits = literals(N.conj(astx.path_condition(f.node, c, pm)))
-            good = any(re.fullmatch(r"not ge\(len\(\w+\), 1\)", l) for l in lits) and sum(1 for l in lits if re.fullmatch(r"not ge\(len\(\w+\), 1\)", l)) >= 2
+            good = sum(1 for l in lits if re.fullmatch(r"not truthy\(\w+\)", l)) >= 2
             ctx.check(good, f, c, "weight 0 only for a ballot with neither ranking nor scores left", str(sorted(lits)),
                       f"zero weight assigned under {sorted(lits)}")
     # expand: the permutation is over the same position whose size divides the weight
